@@ -98,6 +98,18 @@ CHECKS = {
         "Two-rate model; iterates are SciPy's (configurations are enumerated, trajectories monitored).",
         "DESIGN.md section 4 / C11",
     ),
+    "C15": (
+        "fault_enumeration",
+        "E3",
+        "deviation-bounded fault enumeration: fault-free run fixes N model evaluations, then every run with one deviation "
+        "(each exception type / non-finite matrix at evaluation k=1..N; thorough: all pairs) is executed to completion",
+        "For every scheme x method x verbose x raise_exception every single-fault schedule is run on the real optimize() "
+        "and judged: containment, termination reason, parameters from an error-free evaluation, datasets belonging to "
+        "them, identity of the propagated exception, stdout identity, caller's scheme; every kind of invalid scheme is "
+        "rejected before any evaluation. Non-finite runs execute under a forked watchdog.",
+        "Faults are injected at OptimizationGroup.calculate; max_nfev 3 (quick) / 5 (thorough).",
+        "DESIGN.md section 4 / C15",
+    ),
 }
 
 PENDING_REASON = "check under construction in this round - not claimed until its check runs clean on the unchanged tree"
@@ -140,6 +152,7 @@ def main():
         "engines": [
             {"name": "E1", "path": "vf/core.py", "serves_properties": ["C02", "C03", "C08", "C09", "C11"], "kind_free_text": "bounded exhaustive input-space enumeration with reference oracles, 16 workers"},
             {"name": "E2", "path": "vf/explore.py", "serves_properties": ["C10", "C12", "C19"], "kind_free_text": "explicit-state BFS over event histories replayed on fresh real objects, full-state digests"},
+            {"name": "E3", "path": "vf/checks/c15.py", "serves_properties": ["C15"], "kind_free_text": "deviation-bounded fault enumerator (all single / pairs of deviations from the fault-free environment), forked watchdog"},
             {"name": "E5", "path": "vf/prange.py", "serves_properties": ["C10"], "kind_free_text": "partial-order (conflict relation) exploration of numba prange kernels on py_func with recording array proxies"},
             {"name": "E4", "path": "vf/tlc.py", "serves_properties": ["C19"], "kind_free_text": "TLA+ model explored by TLC; every edge of the dumped state graph replayed against the implementation"},
         ],
